@@ -115,6 +115,10 @@ def results_for(lang, tier):
             ta, tb = TP.make_tree(a, ws, lang), TP.make_tree(b, ws, lang)
             share_tokens(ta, tb)
             out.append(('nbest', a, [[ScoredTree(ta, -1.0), ScoredTree(tb, -2.0)]]))
+            # the same list not in best-first order (re-ranked or merged results are result objects too)
+            tc, td = TP.make_tree(a, ws, lang), TP.make_tree(b, ws, lang)
+            share_tokens(tc, td)
+            out.append(('nbest_unsorted', a, [[ScoredTree(tc, -3.5), ScoredTree(td, -0.25)]]))
             out.append(('batch', a, [[ScoredTree(ta, -1.0)], [ScoredTree(TP.make_tree(b, ['(', 'x&y', "it's"][:n], lang), -2.0)]]))
     failed = [ScoredTree(tree=Tree.make_terminal('FAILED', K.P('NP')), score=-float('inf'))]
     out.append(('failed', ('L', 'NP', 0), [failed]))
